@@ -121,6 +121,10 @@ def gen_case(tape, tier):
         cfg["pre"] = "none"
         for fd in w["functions"]:
             fd.pop("none_mod", None)
+    if not cfg.get("real_children") and tape.coin(0.2, "peer-loader"):
+        # "from any process": a second client (another process: an analysis script, a dashboard) reads the same finished
+        # run while each load of the history is under way; file reads and writes of both are pre-emption points
+        cfg["peer_loader"] = True
     return {"workload": w, "config": cfg, "ops": ops}
 
 
@@ -341,7 +345,36 @@ def _run_case(case, exec_seed=None, exec_tape=None):
                 os.chdir(d)
                 probes["chdir"] = probes.get("chdir", 0) + 1
                 return
-            _do_op(op, F(op.get("via")))
+            if not cfg.get("peer_loader") or op["op"] not in ("outputs", "run_info", "xarray"):
+                _do_op(op, F(op.get("via")))
+                return
+            kern = state["sim"].kernel
+            peer = {"done": False, "exc": None}
+
+            def peer_loader():
+                try:
+                    ri = RunInfo.load(folder)
+                    got = load_outputs(all_outputs(w)[0], run_folder=folder)
+                    if {k: canon(v) for k, v in ri.inputs.items()} != truth["inputs"] or canon(got) != truth["R"][all_outputs(w)[0]]:
+                        peer["exc"] = ValueError("the peer loader read other values than the run produced")
+                except (Deadlock, StepCap):
+                    raise
+                except Exception as e:  # noqa: BLE001
+                    peer["exc"] = e
+                finally:
+                    peer["done"] = True
+
+            ry = state["sim"].fs.read_yields
+            state["sim"].fs.read_yields = True
+            kern.spawn(peer_loader, "peer-loader", proc="peer")
+            probes["peer_loader"] = probes.get("peer_loader", 0) + 1
+            try:
+                _do_op(op, F(op.get("via")))
+            finally:
+                kern.block_until(lambda: peer["done"], "join-peer")
+                state["sim"].fs.read_yields = ry
+            if peer["exc"] is not None and not viol:
+                V("concurrent", f"peer-loader-raised:{type(peer['exc']).__name__}", {"op": op["op"], "exc": repr(peer["exc"])[:300]})
 
         def _do_op(op, folder):
             where = "fresh" if state["fresh"] else "same"
